@@ -59,8 +59,12 @@ EraseOK(e) ==
       [] e.e = "Clean"    -> e.nonzero = 0 /\ e.canary = 1
       [] OTHER            -> TRUE
 
-\* C07: no branch or address inside the call depended on a secret
-TaintOK(e) == Field(e, "taint", 0) = 0
+\* C07: no branch or address inside the call depended on a secret.  The accept/reject verdict of a decryption is
+\* public, so a branch on it is allowed; memcheck cannot tell it from other branches on secret-derived data.  When
+\* memcheck reports something inside a decrypt / check_tag call, the harness consults the second observer (address
+\* traces under lackey: equal for all secrets with the same public shape AND verdict, see TV_Leak) and marks the event
+\* verdictonly = 1 if that observer finds the traces independent of the secrets.
+TaintOK(e) == Field(e, "taint", 0) = 0 \/ (e.e \in {"Dec", "DecTag", "CheckTag"} /\ Field(e, "verdictonly", 0) = 1)
 
 \* the fields whose equality across the two runs of a pair shows full initialisation
 Outputs(e) == [f \in (DOMAIN e \cap {"out", "mout", "res", "clen", "ptout", "first", "last", "nonzero"}) |-> e[f]]
